@@ -18,7 +18,7 @@ RULE = ("a frame is an injective partial map estimate-id -> (ground-truth id, ne
         "(28 frames; thorough also {a,b,c}x{x,y}: 94 frames at depth 2); ALL histories [prev, f1..fn] with prev in {empty, any frame} "
         "and n <= 3 (quick) / n <= 4 from the empty previous frame (thorough) are run through CLEAR in CENTERDISTANCE and IOU2D mode "
         "with several ground-truth counts; extras: results of another label, unknown-labelled estimates; every history is re-run "
-        "under 4 bijective renamings of estimate and ground-truth ids; TrackingMetricsScore._sum_clear over pairs of per-label "
+        "under 6 bijective renamings of estimate and ground-truth ids (two of them to un-padded numeric ids whose concatenations coincide); TrackingMetricsScore._sum_clear over pairs of per-label "
         "histories; a manager layer (tracking task, real matcher) over 3-frame sequences. state = (previous frame, current frame, "
         "running counters class); non-trivial = history containing an id switch, a FP or a carried-over pair")
 ASSUMPTIONS = [
@@ -31,7 +31,9 @@ EST, GTS = ["a", "b"], ["x", "y"]
 SC = {("a", "x"): 0.2, ("a", "y"): 0.3, ("b", "x"): 0.4, ("b", "y"): 0.5, ("c", "x"): 0.25, ("c", "y"): 0.35}
 _POOL = {}
 RENAMINGS = [({"a": "b", "b": "a", "c": "c"}, {"x": "x", "y": "y"}), ({"a": "a", "b": "b", "c": "c"}, {"x": "y", "y": "x"}),
-             ({"a": "p", "b": "q", "c": "r"}, {"x": "u", "y": "v"}), ({"a": "b", "b": "c", "c": "a"}, {"x": "y", "y": "x"})]
+             ({"a": "p", "b": "q", "c": "r"}, {"x": "u", "y": "v"}), ({"a": "b", "b": "c", "c": "a"}, {"x": "y", "y": "x"}),
+             # un-padded numeric ids: est "1" + gt "12" and est "11" + gt "2" read the same when written one after the other
+             ({"a": "1", "b": "11", "c": "111"}, {"x": "12", "y": "2"}), ({"a": "11", "b": "1", "c": "2"}, {"x": "2", "y": "12"})]
 CAR, PED = AutowareLabel.CAR, AutowareLabel.PEDESTRIAN
 
 
